@@ -45,10 +45,10 @@ UNARY = ["absolute", "negative", "positive", "ceil", "floor", "rint", "square", 
          "cumsum", "any", "all", "count_nonzero", "nonzero", "transpose", "atleast_1d", "atleast_2d", "atleast_3d",
          "amax", "amin", "argmax", "argmin", "ediff1d", "zeros_like", "ones_like", "array_str", "array_repr"]
 BINARY = ["add", "subtract", "multiply", "maximum", "minimum", "greater", "greater_equal", "less", "less_equal", "equal",
-          "not_equal", "logical_and", "logical_or", "outer", "inner", "matmul", "isclose", "allclose"]
+          "not_equal", "logical_and", "logical_or", "outer", "inner", "matmul", "isclose", "allclose", "power"]
 OPERATORS = {"add": operator.add, "subtract": operator.sub, "multiply": operator.mul, "greater": operator.gt,
              "greater_equal": operator.ge, "less": operator.lt, "less_equal": operator.le, "equal": operator.eq,
-             "not_equal": operator.ne, "matmul": operator.matmul, "negative": operator.neg, "positive": operator.pos,
+             "not_equal": operator.ne, "matmul": operator.matmul, "power": operator.pow, "negative": operator.neg, "positive": operator.pos,
              "absolute": abs}
 METHODS = {"sum": "sum", "prod": "prod", "mean": "mean", "cumsum": "cumsum", "transpose": "transpose", "around": "round",
            "amax": "max", "amin": "min"}
@@ -59,13 +59,30 @@ def gen_spell(tier, rng):
     for _ in range(count(tier, 150, 1200)):
         f = rng.choice(UNARY + BINARY)
         shape = rng.choice([(2,), (3,), (2, 2)])
-        a = rand_poly(rng, shape=shape, maxterms=2, maxexp=2, dtype=rng.choice(["int64", "float64"]))
+        dt = rng.choice(["int64", "float64", "int64", "float64", "float32", "int16", "uint8", "uint32"])
+        pool = [0, 1, 2, 3] if dt.startswith("u") else None
+        a = rand_poly(rng, shape=shape, maxterms=2, maxexp=2, dtype=dt, pool=pool)
         inp = {"f": f, "a": {"poly": a}}
         if f in BINARY:
-            inp["b"] = {"poly": rand_poly(rng, shape=shape if f != "outer" else (2,), maxterms=2, maxexp=2)}
+            inp["b"] = {"poly": rand_poly(rng, shape=shape if f != "outer" else (2,), maxterms=2, maxexp=2, dtype=rng.choice([dt, "int64"]),
+                                          pool=pool)}
+        if f == "power":
+            inp["b"] = {"num": rng.choice([1, 2, 2, 3])}          # (a Python int exponent: `poly ** 2` is numpy.square for numpy)
+        if f in ("greater", "greater_equal", "less", "less_equal", "equal", "not_equal", "add", "subtract", "multiply") and rng.random() < 0.3:
+            # a plain array on the LEFT: Python evaluates the reflected operator of the ndarray subclass
+            from .gen import nested
+            inp["a"] = {"array": nested(rng, shape, pool or [-2, -1, 0, 1, 2, 3]), "dtype": dt}
         if f in ("amax", "amin", "argmax", "argmin"):
             inp["a"] = {"poly": rand_poly(rng, shape=shape, maxterms=2, maxexp=2, pool=[-3, -1, 1, 2, 5, 7, 11])}
         yield inp
+    # comparisons with a plain unsigned array on the left (reflected operator) against a polynomial of the same unsigned type
+    from .gen import nested
+    for f in ("greater", "greater_equal", "less", "less_equal"):
+        for _ in range(count(tier, 4, 30)):
+            dt = rng.choice(["uint8", "uint16", "uint64"])
+            shape = rng.choice([(2,), (3,)])
+            b = rand_poly(rng, shape=shape, maxterms=2, maxexp=1, dtype=dt, pool=[0, 1, 2, 5, 9], force_const_row=True)
+            yield {"f": f, "a": {"array": nested(rng, shape, [0, 1, 3, 7, 200]), "dtype": dt}, "b": {"poly": b}}
 
 
 @check("C08", "spellings.agree", gen_spell, functions=("numpoly.ndpoly.__array_ufunc__", "numpoly.ndpoly.__array_function__"),
